@@ -11,7 +11,7 @@ extern "C" {
 }
 
 struct Fault {
-  enum Act { DROP, DUP, DELAY, CORRUPT } act = DROP;
+  enum Act { DROP, DUP, DELAY, CORRUPT, SENDERR } act = DROP;   // SENDERR: the send syscall itself fails (ENOBUFS), nothing leaves
   int from = 0, to = 0;     // node ids (link from>to)
   int idx = 0;              // k-th datagram on that link (0-based)
   int n = 1;                // DUP: extra copies
